@@ -613,7 +613,7 @@ def drv_infotime(ctx: Ctx, sub: SubCheck):
 
 MODES = ["debug_flag_set", "after_failed_debug_parse", "after_successful_debug_parse"]
 XML_MODES = ["inside_debug_parse", "after_failed_debug_parse", "debug_flag_set"]
-MALFORMED = ["0705", "07022204", "0d0370", "0d046c8080", "ff", "0d0a6900000000000000008380", "07"]
+MALFORMED = ["0705", "07022204", "0d0370", "0d046c0581", "ff", "0d0a6900000000000000000381", "07"]
 WELLFORMED = ["0d1a22047fffffff69486109950ad0ecd28338156c000856a270400a", "071A22042468ACE0341F4DBC778051118ECD8D118AD47B00636C0006", "0F0622042468ACE0"]
 
 
